@@ -5,7 +5,7 @@ import sys
 from collections.abc import Mapping
 
 from core.engine import Property, F
-from props.c15_learners import Scripted, dec, enc, freeze, is_batch, HINT, DICT_FLAVOURS, MAPPING_FLAVOURS
+from props.c15_learners import Scripted, make_learner, dec, enc, freeze, is_batch, HINT, DICT_FLAVOURS, MAPPING_FLAVOURS
 
 LCG_A, LCG_C, LCG_M = 116646453, 9, 2 ** 30
 HINTS = ("action", "action_prob", "pmf")
@@ -65,6 +65,8 @@ def in_quantifier(case):
         return False, "answers with copies / aliases of the offered objects"
     if case.get("weird"):
         return False, "malformed answer"
+    if case.get("batches"):
+        return False, "one wrapper switched between batched and unbatched calls"
     fmt, kw, layout, batch = case["fmt"], bool(case.get("kw")), case["layout"], bool(case.get("batch"))
     hinted = fmt in HINT
     first = case["calls"][0]
@@ -160,7 +162,7 @@ def run_case(case):
     old = CobaContext._logger
     CobaContext.logger = NullLogger()
     try:
-        learner = Scripted(case)
+        learner = make_learner(case)
         safe0 = SafeLearner(learner) if case.get("seed") is None else SafeLearner(learner, case["seed"])
         rw_ = case.get("rewrap")
         safes, batches = [safe0], [bool(case.get("batch"))]
@@ -169,17 +171,22 @@ def run_case(case):
             safes.append(SafeLearner(safe0) if rw_.get("seed2") is None else SafeLearner(safe0, rw_["seed2"]))
             batches.append(bool(rw_.get("batch2")))
         recs = []
+        try:
+            learner.has_score_seen = safe0.has_score
+        except Exception as e:
+            learner.has_score_seen = "raised " + type(e).__name__
         for ci, call in enumerate(case["calls"]):
             w = int(rw_["who"][ci]) if rw_ else 0
             safe = safes[w]
             ctxs = [dec(r["ctx"]) for r in call]
             acts = [[dec(a) for a in r["actions"]] for r in call]
-            if batches[w]:
+            bnow = batches[w] if not case.get("batches") else bool(case["batches"][ci])
+            if bnow:
                 ctx, act = Batch.List(ctxs), Batch.List(acts)
                 rwd = Batch.List([0.25 * (i + 1) for i in range(len(call))])
             else:
                 ctx, act, rwd = ctxs[0], acts[0], 0.25
-            rec = {"ctx": ctx, "actions": act, "np0": len(learner.predict_calls), "nl0": len(learner.learn_calls), "w": w}
+            rec = {"ctx": ctx, "actions": act, "np0": len(learner.predict_calls), "nl0": len(learner.learn_calls), "w": w, "b": bnow}
             recs.append(rec)
             try:
                 out = safe.predict(ctx, act)
@@ -201,7 +208,7 @@ def run_case(case):
             rec["rwd"] = rwd
             # SafeLearner.score for an action of every row: the named one on even calls, its neighbour on odd calls
             picks = [acts[i][(r["pick"] + ci) % len(acts[i])] for i, r in enumerate(call)]
-            sact = Batch.List(picks) if batches[w] else picks[0]
+            sact = Batch.List(picks) if bnow else picks[0]
             rec["score_arg"] = sact
             try:
                 rec["score"] = safe.score(ctx, act, sact)
@@ -448,6 +455,8 @@ class Refs:
             return {"i": o}
         if isinstance(o, float):
             from fractions import Fraction
+            if o != o or o in (float("inf"), float("-inf")):
+                raise Unencodable("nan/inf is not in the model (exact rationals)")
             fr = Fraction(o)
             return {"f": [self.ref(o, safe), fr.numerator, fr.denominator]}
         if isinstance(o, str):
@@ -604,7 +613,7 @@ def gen_ctx(rng):
     return {"d": [[{"s": "c%d" % j}, {"i": rng.randint(0, 5)}] for j in range(rng.randint(1, 3))]}
 
 
-ACTION_KINDS = ["strpre", "int01", "ints", "mixint", "bool", "fltp", "flt01", "fltmix", "str", "str1", "onehot_t", "onehot_l", "tup1", "tup2", "tup3", "lst2",
+ACTION_KINDS = ["nan", "strpre", "int01", "ints", "mixint", "bool", "fltp", "flt01", "fltmix", "str", "str1", "onehot_t", "onehot_l", "tup1", "tup2", "tup3", "lst2",
                 "dict1", "dict2", "dict3", "sparse1h", "mixed"]
 
 
@@ -625,6 +634,9 @@ def gen_actions(rng, kind, K):
         return rng.shuffle([{"i": 0}, {"f": [1, 1]}, {"f": [1, 2]}, {"i": 1}, {"f": [0, 1]}])[:K]
     if kind == "str":
         return [{"s": v} for v in rng.sample(["aa", "bb", "cat", "dog", "action", "pmf", "xy", "left", "0"], K)]
+    if kind == "nan":
+        # nan != nan: `_prev_actions != actions` then depends on object identity; (B) only, the model has no nan
+        return rng.shuffle([{"nan": 0}, {"f": [5, 2]}, {"f": [1, 4]}, {"nan": 0}, {"i": 3}][:max(K, 2)])
     if kind == "strpre":
         # strings that are prefixes of each other / two characters whose first character is itself offered (compass points)
         pool = rng.choice([["N", "E", "NE", "SE", "S", "NW"], ["a", "ab", "abc", "b", "ba"], ["0", "1", "01", "10", "0.5"], ["x", "xy", "y", "yx", "xyz"]])
@@ -718,6 +730,12 @@ def gen_case(rng, stress=0.3):
         # batch-awareness differs per method: predict native / learn per row, predict per row / learn native, same for score
         case["learn_batch"] = rng.chance(0.5)
         case["score_batch"] = rng.chance(0.5)
+    if rng.chance(0.12):
+        # has_score / score error paths: no score attribute, the base class's NotImplementedError, an implemented score that raises
+        case["score_kind"] = rng.choice(["absent", "base", ["raises", "AttributeError", "'Model' object has no attribute 'score'"],
+                                         ["raises", "AttributeError", "'NoneType' object has no attribute 'score_table'"],
+                                         ["raises", "KeyError", "score_cache"], ["raises", "TypeError", "unsupported operand type(s)"],
+                                         ["raises", "ValueError", "bad input"]])
     if kw:
         # the kwargs payload in several Mapping flavours (SafeLearner.has_kwargs tests abc.Mapping)
         case["kwmap"] = rng.wchoice([(5, "dict"), (1, "ordered"), (1, "default"), (1, "subclass"), (2, "proxy"), (2, "plain"), (2, "chain")])
@@ -749,6 +767,32 @@ def gen_case(rng, stress=0.3):
                 seen[key] = row
             call.append(row)
         case["calls"].append(call)
+    return case
+
+
+def gen_mixed(rng):
+    """one wrapper switched between unbatched and batched calls (outside the quantifier; (A) only): the layout detected on
+    the first call is kept, see mixed_history_counterexample"""
+    case = gen_case(rng)
+    if case["fmt"] in ("PM", "dPM"):
+        case["fmt"] = rng.choice(["A", "AP", "dA", "dAP"])
+    case.pop("e2e", None)
+    case["batch"] = True
+    if case["layout"] == "single" and rng.chance(0.5):
+        case["layout"] = rng.choice(["row", "col"])
+    calls = case["calls"]
+    while len(calls) < 2:
+        calls.append(json.loads(json.dumps(calls[0])))
+    first = rng.chance(0.5)
+    case["batches"] = [(first if i % 2 == 0 else not first) for i in range(len(calls))]
+    k = 0
+    for i, b in enumerate(case["batches"]):
+        if not b:
+            calls[i] = calls[i][:1]
+        for r in calls[i]:
+            r["ctx"] = {"i": 100 + k}      # scalar contexts: `_method2` on an unbatched call then raises before calling the learner
+            k += 1
+    case["nobatch"] = "raise"
     return case
 
 
@@ -871,6 +915,8 @@ class C15(Property):
             "the quantifier (copies/aliases of offered objects, malformed PMFs, hint-named features) and are checked by (A) only. "
             "after every predict/learn the same SafeLearner is asked score(context, actions, action) for the named action (even calls) or its neighbour (odd calls); "
             "kwargs key order differs between rows in 25% of kwargs cases; in 30% of batched cases learn / score take batches independently of predict; "
+            "12% of learners have no / the base class's / an always-raising score (has_score and score error paths, (A)); 4% of cases switch one wrapper between "
+            "batched and unbatched calls ((A) only); action kind `nan` ((B) only: not in the model); "
             "12% of cases are SafeLearner(SafeLearner(L), seed2) histories (two wrappers of one learner, calls interleaved, each batched or unbatched on its own); "
             "string action sets with prefixes of each other (compass points); 20% of PMFs sum to 1 +- d/65536 with d spread over the documented tolerance .001; "
             "non-trivial = in-quantifier case for which the real code returned a result for every call, with >= 2 rows overall or a PMF draw; "
@@ -881,10 +927,11 @@ class C15(Property):
         "isclose(sum,1,abs_tol=.001) modelled as |sum-1| <= 1/1000 (generated sums are 1 + d/65536 with |d| <= 65 inside, |d| >= 66 outside, or off by >= 1/16; 16-bit entries keep float sums exact)",
         "dict keys are strings (sparse features, kwargs, hints); numpy/torch answers and batches are excluded",
         "(A) also covers what learn is given (model runHistory vs the learner's learn log, kwargs compared as finite maps) and SafeLearner.score (model score vs the real result)",
+        "str(ex) of the learner's own score exceptions is taken from CPython (the harness calls learner.score(None,None,None) itself and passes class + text to the model)",
         "which of the four proposed repairs the code under test contains is decided by four behavioural probes (variant()); the Lean model has the same four switches (Fixes)",
     ]
     assumptions = ["the learner is a function of (context, actions): the same row is answered the same way in batch, per-row and probe calls",
-                   "a SafeLearner is used either always batched or never (as an evaluator does); two wrappers of one learner may differ in that",
+                   "a SafeLearner is used either always batched or never (as an evaluator does; the theorems' Inv); two wrappers of one learner may differ in that; switching one wrapper is modelled and compared but not claimed (mixed_*_counterexample)",
                    "kwargs of the rows of one batch have the same key set, in any order; kwargs keys are not named action/action_prob/pmf",
                    "the kwargs payload is any abc.Mapping (dict, OrderedDict/defaultdict/dict subclasses, MappingProxyType, a plain Mapping class, ChainMap); "
                    "the model's dict stands for Mapping; a non-dict Mapping after a column-major hinted answer is finding C15-F5 ((A) there only once fixes/C15-colhint-kwargs-mapping.diff is in)",
@@ -901,6 +948,8 @@ class C15(Property):
             return gen_ambiguous(rng)
         if rng.chance(0.12):
             return gen_rewrap(rng)
+        if rng.chance(0.04):
+            return gen_mixed(rng)
         return gen_case(rng)
 
     def search(self, rng, tier):
@@ -1019,7 +1068,7 @@ class C15(Property):
             for rec in recs:
                 refs.ext(rec["ctx"])
                 refs.ext(rec["actions"])
-                calls.append(refs.arg(bool(case.get("batch")), rec["ctx"], rec["actions"]))
+                calls.append(refs.arg(rec["b"], rec["ctx"], rec["actions"]))
             recorded, per_rec = [], []
             for rec in recs:
                 k = 0
@@ -1027,7 +1076,7 @@ class C15(Property):
                 for (b, c, a), ans in zip(learner.predict_calls[rec["np0"]:rec["np1"]], learner.answers[rec["np0"]:rec["np1"]]):
                     e = {"arg": refs.arg(b, c, a, received=True, row=k)}
                     per_rec[-1].append(e)
-                    if case.get("batch") and not b:
+                    if rec["b"] and not b:
                         k += 1
                     if isinstance(ans, BaseException):
                         e["exc"] = 1
@@ -1054,14 +1103,24 @@ class C15(Property):
             req["learn_batch"] = bool(case.get("learn_batch", case["layout"] != "single"))
             req["score_batch"] = bool(case.get("score_batch", case["layout"] != "single"))
             if all("rwd" in rec for rec in recs):
-                req["rewards"] = [refs.enc(list(rec["rwd"]) if case.get("batch") else rec["rwd"]) for rec in recs]
+                req["rewards"] = [refs.enc(list(rec["rwd"]) if rec["b"] else rec["rwd"]) for rec in recs]
             srecs = [rec for rec in recs if "score_arg" in rec]
             if srecs:
                 req["score_tup"] = case.get("wrap", "tuple") == "tuple"
-                req["scores"] = [{"batch": bool(case.get("batch")),
+                req["scores"] = [{"batch": rec["b"],
                                   "rows": [{"ctx": refs.enc(c), "actions": [refs.enc(a) for a in A], "action": refs.enc(x)}
-                                           for c, A, x in (zip(rec["ctx"], rec["actions"], rec["score_arg"]) if case.get("batch")
+                                           for c, A, x in (zip(rec["ctx"], rec["actions"], rec["score_arg"]) if rec["b"]
                                                            else [(rec["ctx"], rec["actions"], rec["score_arg"])])]} for rec in srecs]
+                # has_score / score error paths: what the learner's own score does (the model's input), observed directly
+                kind = case.get("score_kind", "normal")
+                req["score_absent"] = kind == "absent"
+                try:
+                    learner.score(None, None, None)
+                    req["score_probe"] = {"returns": 1}
+                except Exception as ex:
+                    req["score_probe"] = {"attr": isinstance(ex, AttributeError), "msg": str(ex)}
+                if kind == "base" or isinstance(kind, list):
+                    req["score_fail"] = dict(req["score_probe"]) if "msg" in req["score_probe"] else None
         ans = driver.ask(req)
         mrec = outcome_model(ans["recorded"])
         d = outcomes_differ(impl, mrec)
@@ -1091,7 +1150,7 @@ class C15(Property):
             if d2 and not d:
                 fails.append(F("A", "%s: SafeLearner.predict differs from the model run on the Lean scripted learner: %s" % (name, d2), "A:scripted:" + name))
             self.compare_history(case, learner, recs, ans, fails, tags, name, bool(d or d2))
-            if "hyp" in ans:
+            if "hyp" in ans and not case.get("batches"):
                 tags.append("hyp:%s/%s" % ("T" if ans["hyp"] else "F", "inq" if inq else "out"))
                 self.check_c(case, ans, fails, name, inq)
         return {"recorded": mrec, "layout": [r.get("layout") for r in ans["recorded"]], "fmt": [r.get("fmt") for r in ans["recorded"]]}
@@ -1121,7 +1180,8 @@ class C15(Property):
             srecs = [rec for rec in recs if "score_arg" in rec]
             for k, (rec, m, w) in enumerate(zip(srecs, ans["scores"], ans["scores_want"])):
                 if "score_exc" in rec:
-                    got = {"err": EXC.get(type(rec["score_exc"]).__name__, type(rec["score_exc"]).__name__)}
+                    en = type(rec["score_exc"]).__name__
+                    got = {"err": en if en in ("AttributeError", "CobaException") else "LearnerError"}
                 else:
                     got = {"ok": enc(rec["score"])}
                 mm = {"ok": m["ok"]} if "ok" in m else {"err": m["err"]}
@@ -1129,13 +1189,18 @@ class C15(Property):
                     fails.append(F("A", "%s: SafeLearner.score differs from the model (call %d): real %s, model %s" % (
                         name, k, json.dumps(got)[:200], json.dumps(mm)[:200]), "A:score:" + name))
                     break
-                if "ok" in mm:
-                    items = [strip_container(mm["ok"])] if not case.get("batch") else strip_container(mm["ok"])
-                    want = [w] if not case.get("batch") else w
+                if "ok" in mm and case.get("score_kind", "normal") == "normal":
+                    items = [strip_container(mm["ok"])] if not rec["b"] else strip_container(mm["ok"])
+                    want = [w] if not rec["b"] else w
                     if items != want:
                         fails.append(F("C", "%s: model score %s is not the per-row scores %s of score_roundtrip" % (name, json.dumps(items)[:150], json.dumps(want)[:150]), "C:score"))
                         break
             tags.append("score")
+            if "has_score" in ans:
+                tags.append("has_score:%s/%s" % (ans["has_score"], str(case.get("score_kind", "normal"))[:12]))
+                if ans["has_score"] != getattr(learner, "has_score_seen", None):
+                    fails.append(F("A", "%s: SafeLearner.has_score is %r, the model's hasScore says %r (probe %s)" % (
+                        name, getattr(learner, "has_score_seen", None), ans["has_score"], json.dumps(case.get("score_kind", "normal"))), "A:has_score"))
 
     def check_c(self, case, ans, fails, name, inq):
         """(C) run-time sanity check of format_roundtrip_*: whenever the hypotheses hold for a call, the model delivers the spec"""
@@ -1277,6 +1342,28 @@ def corpus_cases():
                         calls.append([row(sets["str"], (ci + i) % 3, 10 * ci + i, pmf=[{"f": [1, 4]}, {"f": [1, 2]}, {"f": [1, 4]}]) for i in range(n)])
                     cs.append({"seed": 5, "fmt": fmt, "kw": True, "layout": layout, "batch": b0, "calls": calls,
                                "rewrap": {"who": who, "batch2": b2, "seed2": 9}})
+    # phase 3: score kinds (has_score / score error paths), one wrapper switched between batched and unbatched calls, nan actions
+    kinds = ["absent", "base", ["raises", "AttributeError", "'Model' object has no attribute 'score'"],
+             ["raises", "AttributeError", "'NoneType' object has no attribute 'score_table'"], ["raises", "KeyError", "score_cache"],
+             ["raises", "TypeError", "unsupported operand type(s)"]]
+    for sk in kinds:
+        for mode in ("not", "single", "row"):
+            rows = [row(sets["str"], (i + 1) % 3, i) for i in range(1 if mode == "not" else 2)]
+            cs.append({"seed": 1, "fmt": "AP", "kw": True, "layout": "single" if mode == "not" else mode, "batch": mode != "not",
+                       "score_kind": sk, "calls": [rows, rows[:1]]})
+    for fmt in ("A", "AP", "dA", "dAP"):
+        for layout in ("single", "row", "col"):
+            for first in (False, True):
+                calls = [[row(sets["str"], (ci + i) % 3, 100 + 10 * ci + i, ctx={"i": 100 + 10 * ci + i}) for i in range(2 if ((ci % 2 == 0) == first) else 1)]
+                         for ci in range(3)]
+                cs.append({"seed": 1, "fmt": fmt, "kw": False, "layout": layout, "batch": True, "nobatch": "raise",
+                           "batches": [(ci % 2 == 0) == first for ci in range(3)], "calls": calls})
+    nan_acts = [{"nan": 0}, {"f": [5, 2]}, {"nan": 0}]
+    for fmt in ("A", "AP", "PM"):
+        for mode in ("not", "row"):
+            rows = [row(nan_acts, (i + 2) % 3, i) for i in range(1 if mode == "not" else 2)]
+            cs.append({"seed": 1, "fmt": fmt, "kw": False, "layout": "single" if mode == "not" else mode, "batch": mode != "not",
+                       "calls": [rows, rows, rows[:1]]})
     seen, out = set(), []
     for c in cs:
         k = json.dumps(c, sort_keys=True)
